@@ -309,6 +309,7 @@ def check(pid, tier, runs=None, workers=None, quiet=False):
             known_lines.append(f"KNOWN-FINDING: property={pid} {ex['known']} {ent.get('what', '')} "
                                f"[{viol_counts[key]} runs, e.g. run {ex['run']}]")
     done_sigs = set()
+    unreproducible = []
     for ex in unknown:
         v = Violation.from_json(ex['violation'])
         if v.sig in done_sigs or len(done_sigs) >= cfg.get('max_reports', 2):
@@ -339,9 +340,9 @@ def check(pid, tier, runs=None, workers=None, quiet=False):
                 note = ('  note: the run alone does not fail in a fresh interpreter; it fails after the listed earlier '
                         'runs in the same process (state kept between calls) - the replay file holds that run sequence')
         if not ok:
-            print(f'HARNESS-FAILURE: minimised trace {path} did not reproduce in a fresh '
-                  f'interpreter under another hash seed: {msg}')
-            return 2
+            unreproducible.append(f'minimised trace {path} (oracle={v2.oracle} class={v2.cls}, run {ex["run"]}) did not '
+                                  f'reproduce in a fresh interpreter: {msg[:300]}')
+            continue
         print(f'VIOLATION property={pid} replay={path}')
         print(f'  oracle={v2.oracle} class={v2.cls} run={ex["run"]} shrink_execs={nexec}')
         if note:
@@ -349,6 +350,12 @@ def check(pid, tier, runs=None, workers=None, quiet=False):
         print('  ' + digest.dumps(v2.detail)[:1500])
         reported.append(v2.sig)
         rc = 1
+    if unreproducible:
+        for u in unreproducible:
+            print(('NOTE: ' if rc == 1 else 'HARNESS-FAILURE: ') + u)
+        if rc != 1:
+            # nothing was confirmed: an alarm that cannot be replayed is a defect of the harness
+            return 2
     # fixed findings must stay fixed: replay their minimised traces on this tree
     nreg = 0
     import glob
